@@ -110,8 +110,133 @@ def history_worker(case):
 engine.register('history_worker', history_worker)
 
 
+SCHED_PRELUDE = '''```
+from sourcer_verif_rt import gate as _vgate
+```
+'''
+
+
+def sched_grammar():
+    """One callback point per consumed character (the callback is an identity function that waits at the turnstile)."""
+    item = ['apply', ['rx', gen.cls('ab'), False], ['py', ['lam', 'same', ['k', ['none']]]]]
+    rules = {
+        'start': {'kind': 'rule', 'params': [], 'body': ['seq', [['list', ['ref', 'Item'], ['none'], ['none']], ['opt', ['ref', 'Tail']]]]},
+        'Item': {'kind': 'class', 'params': [], 'members': [['field', 'c', item]]},
+        'Tail': {'kind': 'rule', 'params': [], 'body': ['choice', [S('!'), ['seq', [S('?'), ['ref', 'Tail']]]]]},
+    }
+    return {'rules': rules, 'ign': [], 'start': 'start'}
+
+
+def sched_worker(case):
+    """Enforce every schedule of the batch on real threads with a turnstile."""
+    import sys
+    import threading
+    import sourcer
+    import sourcer_verif_rt as rt
+    mod = sourcer.Grammar(case['desc'])
+    out = []
+    rt.drain()
+    rt.enable(True)
+    try:
+        for sched in case['schedules']:
+            actors = {}
+            results = {}
+
+            def body(c, text):
+                rt.set_actor(actors[c])
+                actors[c].go.acquire()
+                d0 = rt.open_depth()
+                o = realrun.call_parse(mod, mod.parse, text, 0, True, per_case_timeout=1e9)   # (SIGALRM is main-thread only)
+                if o[0] in ('exc', 'timeout'):
+                    rt.abort_open(d0)
+                results[c] = o
+                actors[c].arrived.release()
+            threads = {}
+            for c, text in case['texts'].items():
+                c = int(c)
+                actors[c] = rt.Actor()
+                threads[c] = threading.Thread(target=body, args=(c, text), daemon=True)
+                threads[c].start()
+            problem = None
+            for c in sched:
+                if c == 0:
+                    try:
+                        sourcer.Grammar(case['compile'][len(out) % len(case['compile'])])
+                    except Exception as e:  # noqa
+                        problem = 'Grammar() in the schedule raised %s' % type(e).__name__
+                    continue
+                actors[c].go.release()
+                if not actors[c].arrived.acquire(timeout=20):
+                    problem = 'actor %d did not reach its next callback point' % c
+                    break
+            for t in threads.values():
+                t.join(timeout=5)
+            out.append([sched, {str(c): results.get(c) for c in actors}, problem])
+    finally:
+        rt.enable(False)
+        events = rt.drain()
+        for n in ('vg_c18s', 'vg_c18s_child'):
+            sys.modules.pop(n, None)
+    return {'id': case['id'], 'desc': case['desc'], 'build': ['ok'], 'obs': out, 'events': events}
+
+
+engine.register('sched_worker', sched_worker)
+
+
+def enforced_schedules(chk):
+    """Every interleaving (at callback granularity) of two parses and one Grammar() construction, enumerated by TLC."""
+    scheds = []
+    r = tlc.run('MC_Sched', 'MC_Sched', on_json=lambda o: scheds.append(o['schedule']), timeout_s=600, workers=4)
+    chk.add_tlc(r, 'MC_Sched')
+    if not scheds:
+        raise MachineryFailure('MC_Sched emitted no schedule')
+    g = sched_grammar()
+    texts = {1: 'ab!', 2: 'ba??!'}
+    ocase = [{'id': 0, 'g': g, 'runs': [['start', T(texts[1]), 0], ['start', T(texts[2]), 0]]}]
+    pegcheck.with_oracle(chk, ocase)
+    exp = {1: ocase[0]['exp'][0], 2: ocase[0]['exp'][1]}
+    body = render.grammar(g)
+    named = 'grammar vg_c18s\n' + SCHED_PRELUDE + body
+    compiles = ['start = "unrelated"\n',
+                'grammar vg_c18s_child extends vg_c18s\nTail = "!!"\n',
+                'grammar vg_c18s\nstart = "same name, other grammar"\n']
+    cases = []
+    per = max(1, len(scheds) // 16 + 1)
+    for i in range(0, len(scheds), per):
+        cases.append({'id': i, 'desc': named, 'schedules': scheds[i:i + per], 'texts': texts, 'compile': compiles})
+    recs = engine.run_real(cases, fn='sched_worker', hooks=True, batch=1, confirm_timeouts=False)
+    reclist = []
+    for c in cases:
+        rec = recs[c['id']]
+        if rec['build'][0] != 'ok':
+            raise MachineryFailure('schedule worker: %r' % (rec['build'],))
+        for sched, results, problem in rec['obs']:
+            chk.traces += 1
+            if problem:
+                chk.violation('schedule %s: %s' % (sched, problem), {'schedule': sched, 'problem': problem})
+                continue
+            for a in (1, 2):
+                o = results.get(str(a))
+                chk.count(['schedule', sched, a], True)
+                why = engine.judge_run(exp[a], o, 0) if o else 'no result'
+                if why:
+                    chk.violation('%s | call %d (text %r) under schedule %s | isolated outcome (spec) %s | observed %s'
+                                  % (why, a, texts[a], sched, exp[a], o),
+                                  {'schedule': sched, 'call': a, 'expected': exp[a], 'observed': o})
+        reclist.append(rec)
+    chk.notes['enforced_schedules'] = len(scheds)
+    chk.notes['schedule_events_validated'] = sum(len(r['events']) for r in reclist)
+    if len(chk.samples) < 4:
+        chk.sample({'schedule': scheds[len(scheds) // 2], 'texts': texts, 'isolated_outcomes': {1: exp[1][:3], 2: exp[2][:3]}})
+    for rec, consumed, bad, inv in tracecheck.validate_cases(chk, reclist, 'schedules', per_batch=4):
+        chk.violation('driver trace of enforced schedules rejected by Trace_Packrat at event %d: %s %s'
+                      % (consumed + 1, json.dumps(bad)[:300], inv or ''), {'rejected_event': bad})
+
+
 def run(chk):
-    chk.rule = ('cases = histories of parse calls on one compiled module: sequential histories mixing successful, '
+    chk.rule = ('cases = histories and schedules of parse calls on one compiled module: every interleaving (at '
+                'inline-Python callback granularity) of two parses and one Grammar() construction, enumerated by TLC '
+                '(MC_Sched) and ENFORCED on real threads with a turnstile; sequential histories mixing successful, '
                 'failing and user-code-raising calls in seeded random orders, the same calls from 8 threads with a '
                 '1 microsecond switch interval, nested parses started from inline Python, and Grammar() constructions '
                 '(another grammar, one extending the module, one reusing its name) in between; every outcome is '
@@ -127,6 +252,8 @@ def run(chk):
     chk.add_tlc(r, 'MC_Packrat')
     if not r.ok:
         raise MachineryFailure('MC_Packrat did not complete')
+
+    enforced_schedules(chk)
 
     rng = random.Random(chk.seed * 7919 + 18)
     g = grammar()
